@@ -10,6 +10,8 @@ import (
 	"regexp"
 	"strconv"
 	"strings"
+	"sync"
+	"unicode"
 	"unicode/utf8"
 	"unsafe"
 
@@ -1020,6 +1022,23 @@ func init() {
 		return nil
 	})
 
+	// ---- rune classifiers summarised as range disjunctions (evaluated natively
+	// over the whole rune domain once)
+	for name, f := range map[string]func(rune) bool{
+		"strconv.IsPrint": strconv.IsPrint, "strconv.IsGraphic": strconv.IsGraphic,
+		"unicode.IsPrint": unicode.IsPrint, "unicode.IsSpace": unicode.IsSpace, "unicode.IsLetter": unicode.IsLetter,
+		"unicode.IsDigit": unicode.IsDigit, "unicode.IsUpper": unicode.IsUpper, "unicode.IsLower": unicode.IsLower,
+		"unicode.IsControl": unicode.IsControl, "unicode.IsGraphic": unicode.IsGraphic, "unicode.IsPunct": unicode.IsPunct,
+	} {
+		name, f := name, f
+		reg(name, func(fr *frame, a []value) value {
+			if rc, ok := a[0].(int32); ok {
+				return f(rc)
+			}
+			return fr.m.runeClass(name, f, a[0].(*sym.Term))
+		})
+	}
+
 	// ---- misc
 	reg("runtime.Gosched", func(fr *frame, a []value) value {
 		fr.m.blockX(fr, "gosched", func() bool { return true }, true)
@@ -1369,4 +1388,48 @@ func (m *Machine) fnvSum(stream []value) value {
 	seen = append(seen, fnvSeen{append([]value(nil), stream...), id})
 	m.objs["fnvSeen"] = seen
 	return id
+}
+
+var runeRanges sync.Map // classifier name -> [][2]int32 (inclusive ranges where it holds, within 0..0x10FFFF)
+
+// runeClass encodes a pure rune classifier on a symbolic rune as a disjunction
+// of ranges; runes outside 0..0x10FFFF are classified natively as well (they
+// behave like a single class: the classifier's value on -1).
+func (m *Machine) runeClass(name string, f func(rune) bool, r *sym.Term) value {
+	var ranges [][2]int32
+	if c, ok := runeRanges.Load(name); ok {
+		ranges = c.([][2]int32)
+	} else {
+		start := int32(-1)
+		for x := int32(0); x <= 0x10FFFF; x++ {
+			if f(x) {
+				if start < 0 {
+					start = x
+				}
+			} else if start >= 0 {
+				ranges = append(ranges, [2]int32{start, x - 1})
+				start = -1
+			}
+		}
+		if start >= 0 {
+			ranges = append(ranges, [2]int32{start, 0x10FFFF})
+		}
+		runeRanges.Store(name, ranges)
+	}
+	c := m.ctx()
+	k := func(v int32) *sym.Term { return c.Const(sym.BV32, uint64(uint32(v))) }
+	acc := c.False
+	for _, rg := range ranges {
+		var t *sym.Term
+		if rg[0] == rg[1] {
+			t = c.Eq(r, k(rg[0]))
+		} else {
+			t = c.And(c.Bin(sym.OpSLe, k(rg[0]), r), c.Bin(sym.OpSLe, r, k(rg[1])))
+		}
+		acc = c.Or(acc, t)
+	}
+	if f(-1) || f(0x110000) {
+		panic(unsupported("%s holds outside the Unicode range", name))
+	}
+	return lowerBool(acc)
 }
